@@ -11,6 +11,7 @@ mod pkt;
 mod m_c20;
 mod m_run;
 mod m_state;
+mod m_tsops;
 mod oracles;
 mod simnet;
 mod strat;
@@ -70,6 +71,7 @@ fn main() {
         "c11" => m_c11::run(&args, &mut out),
         "run" => m_run::run(&args, &mut out),
         "state" => m_state::run(&args, &mut out),
+        "tsops" => m_tsops::run(&args, &mut out),
         "c20" => m_c20::run(&args, &mut out),
         other => { eprintln!("unknown mode {other}"); std::process::exit(2); }
     }
